@@ -128,6 +128,90 @@ def judge_runs(cases: list[dict[str, Any]], runs: dict[int, list[tuple[str, int,
     return out
 
 
+def history_part(ctx: Ctx, cases: list[dict[str, Any]], runs: dict[int, list[tuple[str, int, dict[str, Any]]]],
+                 quick: bool) -> None:
+    """the diagram depends only on the set of job graphs — not on which workflow the same process learnt before.  In one
+    interpreter a first workflow is learnt and then a second one that uses the same event names; the second diagram
+    must have the language it has when the second workflow is learnt alone (part B, base presentation, hash seed 0).
+    First workflows include branch-count ones (the same successor types with varying multiplicities), whose gate trees
+    are rewritten most heavily."""
+    r = ctx.rng
+    firsts: list[list[Any]] = []
+    for kinds in (["AND"], ["OR"], ["AND", "OR"]):
+        for op in kinds:
+            # A -> {B x n, C} -> D with n = 1, 2 (and the plain alternatives for OR)
+            jobs = []
+            for n in (1, 2):
+                nodes = [{"id": 0, "typ": "A", "prev": []}] + [{"id": 1 + i, "typ": "B", "prev": [0]} for i in range(n)]
+                nodes.append({"id": n + 1, "typ": "C", "prev": [0]})
+                nodes.append({"id": n + 2, "typ": "D", "prev": list(range(1, n + 2))})
+                jobs.append(nodes)
+            if op == "OR":
+                jobs.append([{"id": 0, "typ": "A", "prev": []}, {"id": 1, "typ": "B", "prev": [0]},
+                             {"id": 2, "typ": "D", "prev": [1]}])
+                jobs.append([{"id": 0, "typ": "A", "prev": []}, {"id": 1, "typ": "C", "prev": [0]},
+                             {"id": 2, "typ": "D", "prev": [1]}])
+            firsts.append(pvlib.jobs_to_pv(jobs, "h"))
+    seconds = [i for i, c in enumerate(cases) if c["kind"] != "counted" and i in runs and pvlib.has(c["blk"], "fork")
+               and any(n == "base" and hs == 0 and "text" in rp for n, hs, rp in runs[i])]
+    r.shuffle(seconds)
+    seconds = seconds[: (24 if quick else 200)]
+    others = [i for i in runs if cases[i]["kind"] != "counted"]
+    w = pvlib.Worker(0)
+    try:
+        pairs = []
+        for k, i2 in enumerate(seconds):
+            first = firsts[k % len(firsts)] if k % 2 == 0 else cases[r.choice(others)]["pres"]["base"]
+            w.send({"op": "learn", "chunks": [first], "uuid_seed": 1, "timeout": 30})
+            r1 = w.recv()
+            if r1.get("error", "").startswith("worker died"):
+                w.close()
+                w = pvlib.Worker(0)
+            w.send({"op": "learn", "chunks": [cases[i2]["pres"]["base"]], "uuid_seed": ctx.seed * 31 + i2 * 7,
+                    "timeout": 30})
+            r2 = w.recv()
+            if r2.get("error", "").startswith("worker died"):
+                w.close()
+                w = pvlib.Worker(0)
+                continue
+            solo = next(rp for n, hs, rp in runs[i2] if n == "base" and hs == 0)
+            ctx.tick("history_pairs")
+            pairs.append((i2, first, r2, solo))
+    finally:
+        w.close()
+    preqs = []
+    for i2, first, r2, solo in pairs:
+        preqs += [{"op": "dg.parse", "text": r2.get("text", "")}, {"op": "dg.parse", "text": solo["text"]}]
+    pres = pvlib.lean(preqs) if preqs else []
+    sreqs, smeta = [], []
+    for k, (i2, first, r2, solo) in enumerate(pairs):
+        a, b = pres[2 * k], pres[2 * k + 1]
+        c = cases[i2]
+        inp = {"definition": c["blk"], "jobs_pv": c["pres"]["base"], "learnt_before": first}
+        if "text" not in r2:
+            ctx.violation(f"learnt after another workflow in the same interpreter the learner fails "
+                          f"({r2.get('error', '')[:100]}); alone it succeeds", {"input": inp}, key=("hist", c["blk"]))
+        elif a.get("ok") != b.get("ok"):
+            ctx.violation("learnt after another workflow in the same interpreter the emitted text is "
+                          f"{'not ' if not a.get('ok') else ''}a diagram; alone it is {'not ' if not b.get('ok') else ''}one",
+                          {"input": inp, "after": r2.get("text"), "alone": solo["text"]}, key=("hist", c["blk"]))
+        elif a.get("ok") and json.dumps(norm_blk(a["blk"])) != json.dumps(norm_blk(b["blk"])):
+            sreqs += [{"op": "dg.subset", "learned": a["blk"], "source": b["blk"], "k": 2, "cap": 200, "limit": 20000},
+                      {"op": "dg.subset", "learned": b["blk"], "source": a["blk"], "k": 2, "cap": 200, "limit": 20000}]
+            smeta += [k, k]
+    seen = set()
+    for k, res in zip(smeta, pvlib.lean(sreqs) if sreqs else []):
+        if res.get("rejected") and k not in seen:
+            seen.add(k)
+            i2, first, r2, solo = pairs[k]
+            c = cases[i2]
+            job = [(n["typ"], n["prev"]) for n in (res.get("first_rejected") or [])]
+            ctx.violation("the diagram of a workflow depends on which workflow the same interpreter learnt before: "
+                          f"another language than alone, e.g. {job}",
+                          {"input": {"definition": c["blk"], "jobs_pv": c["pres"]["base"], "learnt_before": first},
+                           "after": r2.get("text"), "alone": solo["text"]}, key=("hist", c["blk"]))
+
+
 def run(ctx: Ctx) -> None:
     ctx.prove(["O2P.Props.C03"], THEOREMS)
     if ctx.tier == "thorough":
@@ -263,6 +347,7 @@ def run(ctx: Ctx) -> None:
         if i in verdicts:
             what, extra = verdicts[i]
             lc.report(ctx, c, what, extra)
+    history_part(ctx, cases, runs, quick)
     ctx.assumptions += [
         "the ingestion clauses are theorems (every job list); independence of what follows ingestion (C03_walk_full in "
         "O2P/Props/C03.lean) is not proved: it is decided on the generated job sets x presentations x hash seeds, the "
